@@ -3,6 +3,7 @@ package lmux
 import (
 	"errors"
 	"net"
+	"sync"
 	"sync/atomic"
 	"time"
 
@@ -31,6 +32,7 @@ func New(maxOnlineA int) *ListenerMux {
 
 // ListenerMux manages listeners and handle the connection dispatching logic.
 type ListenerMux struct {
+	wg         sync.WaitGroup
 	shutdown   bool
 	listeners  map[net.Listener]listenerAB
 	chClose    chan struct{}
@@ -76,7 +78,9 @@ func (lm *ListenerMux) Start() {
 	}
 	lm.shutdown = false
 	for k, v := range lm.listeners {
+		lm.wg.Add(1)
 		go func(l net.Listener, listenerA *ChanListener, listenerB *ChanListener) {
+			defer lm.wg.Done()
 			for !lm.shutdown {
 				c, err := l.Accept()
 				if err != nil {
@@ -121,6 +125,23 @@ func (lm *ListenerMux) Stop() {
 		_ = ab.b.Close()
 	}
 	close(lm.chClose)
+	// the accept goroutines exit once their listener is closed.
+	lm.wg.Wait()
+	// connections accepted but not yet taken by Accept would stay open.
+	for _, ab := range lm.listeners {
+		for _, ch := range []chan event{ab.a.chEvent, ab.b.chEvent} {
+			for drained := false; !drained; {
+				select {
+				case e := <-ch:
+					if e.conn != nil {
+						_ = e.conn.Close()
+					}
+				default:
+					drained = true
+				}
+			}
+		}
+	}
 }
 
 // DecreaseOnlineA decreases the online num of ChanListener A.
